@@ -81,5 +81,6 @@ Inv_Stack == Len(S.stack) <= 2 * NM(S) + 6
 
 \* vacuity witnesses: negate to make TLC exhibit a behaviour that reaches them
 Terminal == Kind(S) = "call" /\ ncalls = MaxCalls
-Emit == Terminal => PrintT("REPLAY|" \o ToJson(hist))
+\* (the configuration printed is the final one: lazily chosen vectors are installed in it)
+Emit == Terminal => PrintT("REPLAY|" \o ToJson(IF hist = <<>> THEN hist ELSE [hist EXCEPT ![1].C = S.C]))
 =============================================================================
